@@ -146,6 +146,7 @@ func vOnlyTLSRecords(b []byte) bool {
 // ---------------------------------------------------------------------------
 func VerifH11() {
 	cfgKind := vChoose(3)
+	direct := nondetBool() // set through the TLSConfig option, or directly on the exported Server.TLSConfig field
 	stuffKind := vChoose(3) // 0 none, 1 a complete startup packet for user "x", 2 arbitrary bytes
 	var stuffed []byte
 	switch stuffKind {
@@ -161,14 +162,21 @@ func VerifH11() {
 	})
 	w := &vWorld{parseMenu: 2, execMenu: 2}
 	opts := []OptionFn{MessageBufferSize(64), mw}
+	var tlsCfg *tls.Config
 	switch cfgKind {
 	case 1:
-		opts = append(opts, TLSConfig(&tls.Config{}))
+		tlsCfg = &tls.Config{}
 	case 2:
-		opts = append(opts, TLSConfig(&tls.Config{Certificates: []tls.Certificate{{}}}))
+		tlsCfg = &tls.Config{Certificates: []tls.Certificate{{}}}
+	}
+	if !direct && tlsCfg != nil {
+		opts = append(opts, TLSConfig(tlsCfg))
 	}
 	srv, err := NewServer(w.parse, opts...)
 	vAssert("newserver-ok", err == nil)
+	if direct {
+		srv.TLSConfig = tlsCfg
+	}
 	session := vCat(vStartup(vKV([]byte("user"), []byte("u"))), vMsgBytes('X', nil))
 	repeatInside := nondetBool()
 	if repeatInside {
@@ -223,6 +231,11 @@ func VerifH11() {
 		rest = stuffed // whatever follows the SSLRequest is the fresh startup packet
 	}
 	conn := vNewConn(vCat(vSSLRequest, rest))
+	if vSymbolic() {
+		// should the server (wrongly) start a handshake, the client's plaintext
+		// is not a TLS session: the handshake fails (model: the TLS stream is empty)
+		conn.inner = vNewConn(nil)
+	}
 	srv.serve(context.Background(), conn) //nolint
 	vAssert("ssl-refused-with-single-N", len(conn.out) >= 1 && conn.out[0] == 'N')
 	vAssert("plaintext-continues-wellformed", vWireOK(conn.out[1:]))
@@ -230,6 +243,9 @@ func VerifH11() {
 	if stuffKind == 0 {
 		vAssert("fresh-startup-served", len(seenUsers) == 1 && string(seenUsers[0]) == "u" && vCount(vTypes(conn.out[1:]), 'Z') == 1)
 		vReach("refused-then-plaintext")
+		if direct && cfgKind == 1 {
+			vReach("empty-config-on-field")
+		}
 	}
 	if stuffKind == 1 {
 		vAssert("following-startup-is-the-session", len(seenUsers) == 1 && string(seenUsers[0]) == "x")
